@@ -68,6 +68,7 @@ W0 == [first |-> "none",           \* class of the first client message: "none" 
        doom |-> FALSE,             \* something that ends the connection has been logged
        closeCalls |-> 0,
        cend |-> FALSE,             \* the client saw the end
+       dupsent |-> FALSE,          \* the client sent a start for an id whose operation it had not seen terminated
        devs |-> {}]                \* named deviations used
 
 Insts(w) == DOMAIN w.I
@@ -95,7 +96,7 @@ CSend_F(w, c, m, id, i, kind) ==
       \* a start whose id belongs to an operation the client has not seen terminated is a client
       \* protocol violation: the server MAY end the connection (graphql-transport-ws: 4409)
       dupId == m = "start" /\ \E j \in OfId(w, id) : w.I[j].cp = 0 /\ w.I[j].er = 0
-  IN [w EXCEPT !.first = f1, !.I = I1, !.doom = w.doom \/ EndsConn(w, c, m) \/ dupId]
+  IN [w EXCEPT !.first = f1, !.I = I1, !.doom = w.doom \/ EndsConn(w, c, m) \/ dupId, !.dupsent = w.dupsent \/ dupId]
 
 \* ------------------------------------------------------------- callbacks --
 InitFn_G(w, c, res) == c.initfn /\ w.first = "init" /\ w.initFn = "none"
@@ -173,7 +174,11 @@ Frame_F(w, f, id, i, k) ==
 \*   end             the connection must end (client sent a closing message) and did not
 \* The property never admits a Stall; the named deviations do, in their situation:
 OtherOfId(w, i) == OfId(w, w.I[i].id) \ {i}
-DupStall(w, i) == AllowDupStart /\ "dup" \in w.devs /\ i \in Insts(w) /\ OtherOfId(w, i) # {}
+\* (the duplicate-start deviation shows either as two Sources of one id running at once ("dup") or, when
+\*  the goroutines are scheduled the other way round, only as its consequence: `dupsent` and an
+\*  operation that nothing cancels)
+DupSeen(w) == AllowDupStart /\ ("dup" \in w.devs \/ w.dupsent)
+DupStall(w, i) == DupSeen(w) /\ i \in Insts(w) /\ OtherOfId(w, i) # {}
 \* the id was restarted after an earlier operation of it was completed towards the client
 RestartStall(w, i) == /\ AllowRestartRace /\ i \in Insts(w) /\ w.I[i].src = "run"
                       /\ \E j \in OtherOfId(w, i) : w.I[j].cp >= 1
@@ -185,7 +190,7 @@ Stall_F(w, what, i) ==
 
 \* end of the session: CloseCancels (no Source still waiting on an uncancelled
 \* context), CloseOnce second half, nothing of the transport package alive
-Tolerated(w) == (AllowDupStart /\ "dup" \in w.devs) \/ (AllowRestartRace /\ "restart" \in w.devs)
+Tolerated(w) == DupSeen(w) \/ (AllowRestartRace /\ "restart" \in w.devs)
 StillRunning(w) == {i \in Insts(w) : w.I[i].src = "run"}
 Final_G(w, c, leaked) ==
   /\ leaked = 0 \/ Tolerated(w)
